@@ -5,6 +5,7 @@ import Model.C06.Bech32Ref
 import Model.C06.BitRegroup
 import Model.C06.Base58
 import Model.C06.Address
+import Model.C06.KeyText
 import Generated.Bech32
 import Generated.Base58
 import Generated.Segwit
@@ -149,6 +150,29 @@ def handle : List String → String
     match text? txt with
     | some t => cls Address.Err.cls (Address.fromAddress hash256 t) fun (s, n) => s!"{toHex s} {n}"
     | none => "bad-op"
+  | ["wif.enc", net, q, compr] =>
+    match Address.networkNamed net, q.toNat? with
+    | some n, some q => "ok " ++ textHex (KeyText.wifEncode hash256 n 32 q (compr == "True"))
+    | _, _ => "bad-op"
+  | ["wif.dec", txt] =>
+    match text? txt with
+    | some t =>
+      match KeyText.wifDecode hash256 32 0xFFFFFFFFFFFFFFFFFFFFFFFFFFFFFFFEBAAEDCE6AF48A03BBFD25E8CD0364141 t with
+      | .ok (q, n, c) => s!"ok {q} {n} {if c then "True" else "False"}"
+      | .error _ => "err value"
+    | none => "bad-op"
+  | ["xkey.dec", txt] =>
+    match text? txt with
+    | some t =>
+      match KeyText.xkeyDecode hash256 t with
+      | .ok k => s!"ok {toHex k.version} {k.depth} {toHex k.parentFp} {k.index} {toHex k.chainCode} {toHex k.key}"
+      | .error _ => "err value"
+    | none => "bad-op"
+  | ["xkey.enc", ver, depth, fp, index, cc, key] =>
+    match fromHex? ver, depth.toNat?, fromHex? fp, index.toNat?, fromHex? cc, fromHex? key with
+    | some v, some d, some f, some i, some c, some k =>
+      "ok " ++ textHex (KeyText.xkeyEncode hash256 ⟨v, d, f, i, c, k⟩)
+    | _, _, _, _, _, _ => "bad-op"
   | _ => "bad-op"
 
 def main : IO Unit := runLoop handle
